@@ -127,6 +127,7 @@ type Fixture struct {
 	Router    *baseapp.MsgServiceRouter
 	Keys      map[string]*storetypes.KVStoreKey
 	Authority string
+	LastRaw   string // raw record of the last delivery (result, error text, response bytes, ordered events) for determinism checks
 	Fault     *Fault
 	PanicTo   *string
 }
@@ -242,6 +243,22 @@ func (r Result) ErrString() string {
 
 // Deliver executes one message the way baseapp's runMsgs does (see l1.Deliver).
 func Deliver(f *Fixture, ctx sdk.Context, msg sdk.Msg) (res Result) {
+	defer func() {
+		raw := fmt.Sprintf("ok=%v|err=%s|", res.OK, res.ErrString())
+		if res.Resp != nil {
+			if bz, err := proto.Marshal(res.Resp); err == nil {
+				raw += fmt.Sprintf("resp=%x|", bz)
+			}
+		}
+		for _, ev := range res.Events {
+			raw += ev.Type + "{"
+			for _, a := range ev.Attributes {
+				raw += a.Key + "=" + a.Value + ";"
+			}
+			raw += "}"
+		}
+		f.LastRaw = raw
+	}()
 	bz, err := f.Cdc.MarshalInterface(msg)
 	if err != nil {
 		return Result{Err: fmt.Errorf("marshal: %w", err)}
